@@ -145,9 +145,16 @@ func Conc() {
 	K := vx.Param("ops", 1)
 	kv := mapz.NewSafeKV[int, int](0)
 	init := map[int]int{}
-	if vx.Choose(2) == 1 {
+	switch vx.Choose(2 + vx.Param("fullinit", 0)) {
+	case 1:
 		kv.Set(1, 100)
 		init[1] = 100
+	case 2:
+		// both keys bound: a two-key snapshot (GetWithMap, Keys, Range ...) against Clear/Delete is only
+		// distinguishable from a per-key read when both keys can change in one step
+		kv.Set(1, 100)
+		kv.Set(2, 200)
+		init[1], init[2] = 100, 200
 	}
 	set := make([]int, 0, nOps)
 	if vx.Param("opset", 0) == 1 {
